@@ -169,16 +169,14 @@ def decPrepared (j : Json) (errCap : Nat) : Option Prepared :=
     (p.1, data.map mk))
   if items.all (fun p => p.2.isSome) then
     let items' := items.filterMap (fun p => p.2.map (fun v => (p.1, v)))
-    -- stages: derived from the stage-output nodes (every declared output has a node)
+    -- stages: every stage item of a step (also those without outputs, e.g. deploy / running) with the outputs that have
+    -- a stage-output node (every declared output has one)
     let outs := items'.filter (fun p => p.2.kind = .stageOutput)
-    let steps := (outs.map (fun p => p.2.step)).eraseDups
-    let stages := steps.map (fun s =>
-      let mine := outs.filter (fun p => p.2.step = s)
-      let sts := (mine.map (fun p => p.2.stage)).eraseDups
-      (s, sts.map (fun st => (st, (mine.filter (fun p => p.2.stage = st)).map (fun p => p.2.output)))))
-    -- steps without any output stage still need an entry for the data model
-    let allSteps := ((items'.filter (fun p => p.2.kind = .stage)).map (fun p => p.2.step)).eraseDups
-    let stages := stages ++ (allSteps.filter (fun s => !(steps.contains s))).map (fun s => (s, []))
+    let stageItems := items'.filter (fun p => p.2.kind = .stage)
+    let allSteps := (stageItems.map (fun p => p.2.step)).eraseDups
+    let stages := allSteps.map (fun s =>
+      let sts := ((stageItems.filter (fun p => p.2.step = s)).map (fun p => p.2.stage)).eraseDups
+      (s, sts.map (fun st => (st, (outs.filter (fun p => p.2.step = s ∧ p.2.stage = st)).map (fun p => p.2.output)))))
     some { dag := { nodes := nodes, edges := edges, ready := [] }, items := items', stages := stages, errCap := errCap }
   else none
 
